@@ -16,7 +16,10 @@ Lemma own_eq_refl : forall o, own_eq o o.
 Proof. intro o. repeat split. Qed.
 
 Lemma val_eqb_refl : forall v, val_eqb v v = true.
-Proof. destruct v; cbn [val_eqb]; try reflexivity; [apply Bool.eqb_reflx | apply Z.eqb_refl | apply Z.eqb_refl | apply zl_refl]. Qed.
+Proof.
+  destruct v; cbn [val_eqb]; try reflexivity; [apply Bool.eqb_reflx | apply Z.eqb_refl | apply Z.eqb_refl | apply zl_refl |].
+  rewrite !Z.eqb_refl. reflexivity.
+Qed.
 
 (* 8.12.9 is idempotent: defining again with the same descriptor changes nothing and succeeds *)
 Lemma define_ord_idem : forall cur ext d p', define_ord cur ext d = Some p' -> define_ord (Some p') ext d = Some p'.
